@@ -72,10 +72,10 @@ func directionBlock(prop string, mux bool) (viol []rec.Violation, counts map[str
 	defer in.Close()
 	rng := rand.New(rand.NewSource(rec.Seed()))
 	type side struct {
-		name       string
-		conn       *grpc.ClientConn
-		fake       *fakeCluster
-		from, to   string // caller's name for the namespace, callee's name
+		name         string
+		conn         *grpc.ClientConn
+		fake         *fakeCluster
+		from, to     string // caller's name for the namespace, callee's name
 		saFrom, saTo string
 	}
 	sides := []side{{"inbound", in, a.local, "remote-ns", "local-ns", "RemoteAttr", "LocalAttr"}}
